@@ -99,6 +99,9 @@ func runEnvTimed(bm *bondmachine.Bondmachine, input func(port, k int) uint64, ma
 	return res, nil
 }
 
+// hdlClockHook, when set, is called after every clock of runEnvHdl (used to record per-clock state).
+var hdlClockHook func(*vlog.Sim)
+
 // runEnvHdl is the same environment around the generated top-level Verilog of bm, executed clock by
 // clock in the Verilog interpreter (ports iK / iK_valid / iK_received, oK / oK_valid / oK_received).
 func runEnvHdl(sim *vlog.Sim, nin, nout int, input func(port, k int) uint64, maxClocks, want, hold, ackDelay int) (res envResult, err error) {
@@ -133,6 +136,9 @@ func runEnvHdl(sim *vlog.Sim, nin, nout int, input func(port, k int) uint64, max
 			return res, fmt.Errorf("clock %d: %v", t, err)
 		}
 		res.Ticks = t + 1
+		if hdlClockHook != nil {
+			hdlClockHook(sim)
+		}
 		for i := 0; i < nin; i++ {
 			recv := get(fmt.Sprintf("i%d_received", i)) == 1
 			switch inPhase[i] {
